@@ -325,6 +325,13 @@ func run(r *mon.Run) {
 			checkChain(r, es[:1], "bloblen", 11)
 		}
 	}
+	// the same certificate at several positions (nothing may be de-duplicated)
+	if r.Shard == 0 {
+		g := r.Rand("samecert", 0)
+		checkChain(r, []elem{{cert: pool[0], ocsp: blob(g, 10)}, {cert: pool[0]}}, "same-cert-twice", 1)
+		checkChain(r, []elem{{cert: pool[1], ocsp: blob(g, 10), sct: blob(g, 5)}, {cert: pool[2]}, {cert: pool[1], sct: blob(g, 5)}}, "same-cert-twice", 1)
+		checkChain(r, []elem{{cert: pool[3], ocsp: blob(g, 0)}, {cert: pool[3]}, {cert: pool[3]}}, "same-cert-twice", 1)
+	}
 	// empty chain
 	if r.Shard == 0 {
 		var buf bytes.Buffer
